@@ -173,12 +173,16 @@ func (d *DeadlineChan[T]) Recv() (b T, err error) {
 	}
 	// Canceled, closed or timed out. Buffered data still comes first: when both
 	// the deadline channel and the queue are ready, select picks at random.
+	// The error is read before the last look at the queue: a call woken by a
+	// time-out that reads the error only afterwards may find io.EOF there,
+	// from a Close that followed a Send it has not seen.
+	err = d.deadline.Err()
 	select {
 	case b = <-d.C:
+		err = nil
 		return
 	default:
 	}
-	err = d.deadline.Err()
 	return
 }
 
